@@ -27,8 +27,8 @@ PROPS['C10'] = dict(
         dict(name='sweep-dense', variant='asan', harness='c10_pitch.cpp', quick=0, thorough=3520, budget=300, opts=dict(stride=8)),
         dict(name='fullbend', variant='asan', harness='c10_pitch.cpp', quick=128, thorough=128, budget=120),
         dict(name='lsb', variant='asan', harness='c10_pitch.cpp', quick=160, thorough=160, budget=120),
-        dict(name='porta', variant='asan', harness='c10_pitch.cpp', quick=640, thorough=4000, budget=120),
-        dict(name='vibrato', variant='asan', harness='c10_pitch.cpp', quick=640, thorough=4000, budget=60),
-        dict(name='scope', variant='asan', harness='c10_pitch.cpp', quick=2000, thorough=10000, budget=60),
+        dict(name='porta', variant='asan', harness='c10_pitch.cpp', quick=3000, thorough=20000, budget=120),
+        dict(name='vibrato', variant='asan', harness='c10_pitch.cpp', quick=2000, thorough=15000, budget=60),
+        dict(name='scope', variant='asan', harness='c10_pitch.cpp', quick=8000, thorough=60000, budget=60),
     ],
 )
